@@ -282,6 +282,10 @@ func (d *drv) dial(addr string) (net.Conn, error) {
 		if errors.Is(err, syscall.ECONNREFUSED) {
 			return nil, err
 		}
+		var ne net.Error
+		if errors.As(err, &ne) && ne.Timeout() && i < 3 {
+			continue
+		}
 		if !errors.Is(err, syscall.EADDRINUSE) && !errors.Is(err, syscall.EADDRNOTAVAIL) && !strings.Contains(err.Error(), "bind:") {
 			return nil, err
 		}
